@@ -233,7 +233,7 @@ SMOKE = {
         "get_recursively": ["P.get_recursively({'a': {'b': 1}}, 'a.b')", "P.get_recursively({}, 'a.b')",
                             "P.get_recursively({}, 'a.b', 3)", "P.get_recursively({}, 5)"],
         "intersection": ["P.intersection({'a': 1, 'b': 2}, {'a': 1})", "P.intersection({'a': 1}, 5)"],
-        "make_include_exclude_tree": ["P.make_include_exclude_tree(['a.b'], ['a.b.c']).get({'a': {'b': {'c': 1, 'd': 2}}})"],
+        "make_include_exclude_tree": ["P.make_include_exclude_tree([''], ['a.b']).get({'a': {'b': 1, 'd': 2}})", "P.make_include_exclude_tree(['a.b'], ['a.b.c'])"],
         "str_to_dict": ["P.str_to_dict('a.b', 1)", "P.str_to_dict('')"],
         "str_to_list": ["P.str_to_list('a.b')"],
         "to_string": ["P.to_string({'a': 1})"],
@@ -245,7 +245,7 @@ SMOKE = {
         "Call": ["P.Call(lambda x: x + 1)(1)", "P.Call(1)"],
         "FillCompute": ["P.FillCompute(1)", "fc(P.FillCompute(" + _FC2 + "), [1])"],
         "FillInto": ["P.FillInto(lambda x: x)", "P.FillInto(1)"],
-        "FillRequest": ["P.FillRequest(1)", "P.FillRequest(" + _FC2 + ", reset=False, bufsize=1).run(iter([1, 2]))"],
+        "FillRequest": ["P.FillRequest(1)", "P.FillRequest(" + _FC2 + ", reset=False, buffer_input=True).run(iter([1, 2]))"],
         "Run": ["run(P.Run(lambda x: x * 2), [1, 2])", "P.Run(1)"],
         "SourceEl": ["list(P.SourceEl(" + _SRC + ")())", "P.SourceEl(1)"],
         "Sequence": ["run(P.Sequence(lambda x: x + 1, lambda x: x * 2), [1, 2])", "P.Sequence(1)", "repr(P.Sequence())"],
@@ -257,7 +257,7 @@ SMOKE = {
         "FillSeq": ["P.FillSeq(1)", "P.FillSeq(lambda x: x, " + _FC2 + ").fill(1)"],
         "FillComputeSeq": ["P.FillComputeSeq(lambda x: x)", "fc(P.FillComputeSeq(lambda x: x + 1, " + _FC2 + "), [1])"],
         "FillRequestSeq": ["P.FillRequestSeq(lambda x: x)",
-                           "P.FillRequestSeq(P.FillRequest(" + _FC2 + ", reset=False), bufsize=1).run(iter([1]))"],
+                           "P.FillRequestSeq(P.FillRequest(" + _FC2 + ", reset=False, buffer_input=True)).run(iter([1]))"],
         "LenaSequence": ["repr(P.LenaSequence(lambda x: x))", "len(P.LenaSequence(abs, abs))"],
         "LenaKeyError": ["issubclass(P.LenaKeyError, (P.LenaException, KeyError))"],
         "LenaStopFill": ["[issubclass(getattr(P, n), P.LenaException) for n in sorted(P.__all__) if n.startswith('Lena') and n.endswith(('Error', 'Fill'))]"],
